@@ -237,6 +237,16 @@ func factsStores() {
 	emitStr("storesLimitErrorStatus", "pkg/store/limiter.go limitError.GRPCStatus: the status of a violated limit", limStatus)
 	emitStr("storesLimiterCond", "pkg/store/limiter.go Limiter.ReserveWithType: the reservation and its test", limCond)
 
+	// ---- C07: the block pre-filter of LabelNames / LabelValues
+	overlap := "unknown"
+	ast.Inspect(body(fn(bucket, "bucketBlock", "overlapsClosedInterval")), func(n ast.Node) bool {
+		if ret, ok := n.(*ast.ReturnStmt); ok && len(ret.Results) == 1 {
+			overlap = text(ret.Results[0])
+		}
+		return true
+	})
+	emitStr("storesOverlapsClosedInterval", "pkg/store/bucket.go bucketBlock.overlapsClosedInterval: which blocks LabelNames / LabelValues look at", overlap)
+
 	// ---- C09 / C10: the skeleton of blockSeriesClient.nextBatch
 	var loopBody, tail []string
 	if nb := fn(bucket, "blockSeriesClient", "nextBatch"); nb != nil && nb.Body != nil {
